@@ -36,8 +36,14 @@
     the reader beside `Rel` (Proofs/Elems.lean, Proofs/FidelityElems.lean), including DROP COLUMN's clean-up loops
     (the column is stripped from every index, an index left empty is forgotten, the keys on the column are dropped).
 
-  Missing: the same for the primary key (two representations in the model, recorded finding
-  `pk-inline-vs-table-level`), and for RENAME COLUMN (a
+  * `primary_key_table_level` — **… and on primary keys declared at table level** (`PRIMARY KEY (…)` in CREATE TABLE,
+    ALTER TABLE … ADD PRIMARY KEY; no inline PRIMARY KEY option in any column definition): table by table the columns
+    of the loaded model's `primary_key` record are exactly the reference table's primary key, no record when there is
+    none, through DROP COLUMN's clean-up too (the key loses the column; a key left empty is forgotten) — a third pass
+    beside `Rel` and `ElemsOK` (Proofs/FidelityPk.lean).
+
+  Missing: the same for an inline PRIMARY KEY (the model keeps it as an option of the column: two representations of
+  a key, recorded finding `pk-inline-vs-table-level`), and for RENAME COLUMN (a
   renamed record is no longer a plain `add` record: recorded region `rename-column`).  They are covered by correspondence (white-box state after every script, including the position maps,
   plus `invCheck` on the Go state) and by the executable predicate (dump → grammar → reference engine) on every case.
 -/
@@ -47,6 +53,7 @@ import SqlizeModel.Generated.Facts
 import SqlizeModel.Proofs.ReaderPending
 import SqlizeModel.Proofs.FidelityMain
 import SqlizeModel.Proofs.FidelityElems
+import SqlizeModel.Proofs.FidelityPk
 
 namespace Sqlize.C05
 open Sqlize Sqlize.Spec
@@ -133,6 +140,13 @@ theorem indexes_and_foreign_keys (rc : Bool) (ss : List Stmt) (db : DB) (hs : ss
       m.Inv ∧ m.NoPending ∧ m.Fresh :=
   ReaderMysql.fidelity_elems rc ss db hs he
 
+/-- … and the reference schema's primary keys, when they are declared at table level -/
+theorem primary_key_table_level (rc : Bool) (ss : List Stmt) (db : DB) (hs : ss.all Stmt.elemSafe = true)
+    (ht : ss.all Stmt.tablePk = true) (he : execAll rc [] ss = some db) :
+    ∃ m, ReaderMysql.run {} ss = .ok m ∧ m.tables.map (fun t => pkOf t.idxs) = db.map (·.pk) ∧
+      ∀ t ∈ m.tables, PkShape t.idxs :=
+  ReaderMysql.fidelity_pk rc ss db hs ht he
+
 -- non-vacuity of `indexes_and_foreign_keys`: a script with a table-level primary key, two indexes (one of them losing a
 -- column, one losing its only column), a dropped index, two foreign keys (one on a column that is dropped later)
 def exElems : List Stmt :=
@@ -151,6 +165,11 @@ example : (execAll true [] exElems).map (fun db => db.map (fun tb => (tb.idxs, t
     some [([], []), ([{ name := "i_ab", cols := ["a"], unique := true }], [{ name := "fk_a", col := "a", refT := "u", refC := "id" }])] := by decide
 example : (ReaderMysql.run {} exElems).toOption.map (fun m => m.tables.map (fun t => (t.idxs.map (·.name), t.fks.map (·.name)))) =
     some [(["primary_key"], []), (["i_ab", "primary_key"], ["fk_a"])] := by rfl
+
+-- non-vacuity of `primary_key_table_level`: the script below (a key on (id) and one added later on (a), which then loses
+-- nothing when `b` is dropped)
+example : exElems.all Stmt.tablePk = true := by decide
+example : (execAll true [] exElems).map (fun db => db.map (·.pk)) = some [["id"], ["a"]] := by decide
 
 -- non-vacuity: a two-table script with positional adds interleaved across tables, a drop and a modify
 def exScript : List Stmt :=
